@@ -4,6 +4,7 @@ import (
 	"bufio"
 	"encoding/json"
 	"fmt"
+	"math/rand"
 	"os"
 	"path/filepath"
 	"regexp"
@@ -136,6 +137,10 @@ func RunProperty(spec *PropertySpec, opt CheckOptions) int {
 	var problems []string
 	for _, n := range names {
 		h := NewHarnessRun(e, n, e.Harnesses[n])
+		if !opt.NoReplay {
+			h.WitnessMax = 2 + 3*tier
+			h.rng = rand.New(rand.NewSource(opt.Seed*7919 + int64(len(runs))))
+		}
 		if opt.MaxPaths > 0 {
 			h.MaxPaths = opt.MaxPaths
 		}
@@ -247,7 +252,22 @@ func RunProperty(spec *PropertySpec, opt CheckOptions) int {
 			exit = 2
 		}
 	}
+	var val *validationResult
+	if !opt.NoReplay && exit != 1 {
+		val = validateWitnesses(opt, spec, tier, runs)
+		for _, d := range val.Disagreements {
+			fmt.Printf("INCONCLUSIVE property=%s: translator validation: %s\n", spec.ID, d)
+			problems = append(problems, "translator validation: "+d)
+		}
+		if len(val.Disagreements) > 0 && exit == 0 {
+			exit = 2
+		}
+	}
 	ev := writeEvidence(spec, opt, e, runs, reports, time.Since(t0), problems, stats, knownRepro, loadS)
+	if val != nil {
+		ev.doc["coverage"].(map[string]interface{})["translator_validation"] = val
+		replayed += val.Agreed
+	}
 	ev.update(nviol, replayed, vsamples, opt)
 	if exit == 0 {
 		fmt.Printf("OK property=%s tier=%s harnesses=%d paths=%d obligations=%d solver_s=%.1f wall_s=%.1f\n",
@@ -256,13 +276,19 @@ func RunProperty(spec *PropertySpec, opt CheckOptions) int {
 	return exit
 }
 
+type replayFileDoc struct {
+	Property string `json:"property"`
+	Tier     int    `json:"tier"`
+	*Violation
+}
+
+func writeReplayTo(path, prop string, tier int, v *Violation) {
+	data, _ := json.MarshalIndent(replayFileDoc{prop, tier, v}, "", " ")
+	os.WriteFile(path, data, 0o644)
+}
+
 func writeReplay(verif, prop string, tier int, v *Violation) string {
-	type rf struct {
-		Property string `json:"property"`
-		Tier     int    `json:"tier"`
-		*Violation
-	}
-	data, _ := json.MarshalIndent(rf{prop, tier, v}, "", " ")
+	data, _ := json.MarshalIndent(replayFileDoc{prop, tier, v}, "", " ")
 	sum := 0
 	for _, b := range data {
 		sum = (sum*31 + int(b)) & 0xffffff
